@@ -317,8 +317,9 @@ def r06_2b(ctx):
                        "successive dyadic midpoints of the nodes on the way to it, and nothing else")
     sp = model.func(BI, "_Interval._split")
     icls = model.cls(BI, "_Interval")
-    for q, tol in [(q, Fraction(1, 10 ** 6)) for q in (1, 2, 3, 4, 5, 6, 7)] + [(1, Fraction(1, 2)), (3, Fraction(1, 2)),
-                                                                            (7, Fraction(1, 2)), (5, Fraction(1))]:
+    grid = (1, 2, 3, 4, 5, 6, 7) if ctx.tier == "quick" else tuple(Fraction(k, 4) for k in range(1, 32))
+    for q, tol in [(q, Fraction(1, 10 ** 6)) for q in grid] + [(1, Fraction(1, 2)), (3, Fraction(1, 2)),
+                                                              (7, Fraction(1, 2)), (5, Fraction(1))]:
         top, _ = bk.make_top(model, halfway=True, extra={"_tol": tol})
         splits = []
 
